@@ -151,13 +151,13 @@ func run(r *core.Run) {
 	guard := func(op string, in []byte, line string, isolated bool) {
 		var out string
 		if isolated {
-			out = r.ImplIsolated(line, 20*time.Second)
+			out = r.ImplIsolated(line, 180*time.Second)
 		} else {
 			done := make(chan string, 1)
 			go func() { done <- r.Impl(line) }()
 			select {
 			case out = <-done:
-			case <-time.After(10 * time.Second):
+			case <-time.After(120 * time.Second):
 				out = "timeout"
 			}
 		}
